@@ -276,3 +276,43 @@ def known_classes(world: World, table: ClassTable, module, fs: set, var) -> list
                     b for b in ks if any(table.is_subclass(b, a) and b is not a for a in out)
                 ]
     return out
+
+
+def homothety_roles(fn: ast.FunctionDef) -> dict | None:
+    """Discovers, by role, the local names of HomothetyRule.apply: the operand list parameter, first/last (from the
+    starred unpacking), the scalar accumulator, the list of kept operands, the scalar counter and the side flag."""
+    if len(fn.args.args) < 2:
+        return None
+    ops = fn.args.args[1].arg
+    roles: dict = {'ops': ops}
+    for st in ast.walk(fn):
+        if isinstance(st, ast.Assign) and isinstance(st.targets[0], ast.Tuple) and isinstance(st.value, ast.Name) and st.value.id == ops:
+            elts = st.targets[0].elts
+            if len(elts) == 3 and isinstance(elts[0], ast.Name) and isinstance(elts[1], ast.Starred) and isinstance(elts[2], ast.Name):
+                roles['first'], roles['last'] = elts[0].id, elts[2].id
+    loops = [n for n in fn.body if isinstance(n, ast.For) and isinstance(n.iter, ast.Name) and n.iter.id == ops and isinstance(n.target, ast.Name)]
+    if len(loops) != 1:
+        return None
+    loop = loops[0]
+    v = loop.target.id
+    roles['loop'], roles['elem'] = loop, v
+    for st in loop.body:
+        if isinstance(st, ast.If):
+            t = term(st.test)
+            if t[0] == 'call' and t[1] == ('var', 'isinstance') and t[2][0] == ('var', v):
+                roles['test'] = t
+                for b in st.body:
+                    if isinstance(b, ast.AugAssign) and isinstance(b.target, ast.Name):
+                        if isinstance(b.op, ast.Mult) and term(b.value) == ('attr', ('var', v), 'value'):
+                            roles['value'] = b.target.id
+                        elif isinstance(b.op, ast.Add) and term(b.value) == ('const', '1'):
+                            roles['count'] = b.target.id
+                for b in st.orelse:
+                    if isinstance(b, ast.Expr) and isinstance(b.value, ast.Call) and isinstance(b.value.func, ast.Attribute) and b.value.func.attr == 'append' \
+                            and isinstance(b.value.func.value, ast.Name) and term(b.value.args[0]) == ('var', v):
+                        roles['kept'] = b.value.func.value.id
+    for st in fn.body:
+        if isinstance(st, ast.Assign) and isinstance(st.targets[0], ast.Name) and isinstance(st.value, ast.Compare):
+            roles['side'] = st.targets[0].id
+            roles['side_term'] = term(st.value)
+    return roles
